@@ -10,6 +10,10 @@ package main
 //   txs:   a begin is recorded ⇔ the model enables Begin; commit/rollback only if the model enables one
 //   keeps: Statement.SQL is non-empty after the run ⇔ model.keepsSQL (for runs that built a statement)
 //   finisher level: batched finisher exposes nothing / explicit transaction under ToSQL flags (F25/F26 probes)
+//
+// The model is instantiated with the regenerated fact Gen.beginSkipsDryRun of the tree under check (which DB.Begin
+// exists: Model/DryRun.lean `txReaches`), so the same judgements hold on a tree with and without the repair of F25: with it
+// a DryRun run records no begin/commit at all, and the model enables none.
 
 import (
 	"encoding/json"
@@ -272,21 +276,42 @@ func c19FinisherProbes(r *Result) {
 		w.rec.Reset()
 		return s, ev
 	}
-	// F25
-	_, ev := run(func(tx *gorm.DB) *gorm.DB {
-		var res *gorm.DB
-		_ = tx.Transaction(func(t *gorm.DB) error { p := c19MkPlain(1); res = t.Create(&p); return nil })
-		return res
-	})
-	r.CorrCompared++
-	r.Case("tie-finisher", "F25", len(ev) > 0)
-	if (len(ev) > 0) != (len(ms[0].Txs) > 0) {
-		r.Violate(Violation{Kind: "correspondence", Suite: "tie-finisher", Input: "ToSQL{Transaction{Create}}", Observed: ev, Expected: fmt.Sprint("model txs ", ms[0].Txs)})
-	} else if len(ev) > 0 {
-		if listed(c19FExplicitTx) {
-			r.KnownFinding(c19FExplicitTx, fmt.Sprintf("probe: ToSQL{Transaction{Create}} made driver calls %v", ev))
-		} else {
-			r.Violate(Violation{Kind: "e2e", Suite: "tie-finisher", Input: "ToSQL{Transaction{Create}}", Observed: ev, Expected: "no driver call"})
+	// F25: an explicit user transaction on the ToSQL handle (Transaction block and Begin/Commit pair).
+	//   model vs real: driver events recorded  <=>  the model of THIS tree (Gen.beginSkipsDryRun) enables the BeginTx
+	//   property:      no driver call at all, and the string is the INSERT of the inner Create (= ToSQL of the bare Create)
+	want, _ := run(func(tx *gorm.DB) *gorm.DB { p := c19MkPlain(1); return tx.Create(&p) })
+	for _, pr := range []struct {
+		name string
+		f    func(tx *gorm.DB) *gorm.DB
+	}{
+		{"ToSQL{Transaction{Create}}", func(tx *gorm.DB) *gorm.DB {
+			var res *gorm.DB
+			_ = tx.Transaction(func(t *gorm.DB) error { p := c19MkPlain(1); res = t.Create(&p); return nil })
+			return res
+		}},
+		{"ToSQL{Begin;Create;Commit}", func(tx *gorm.DB) *gorm.DB {
+			t := tx.Begin()
+			p := c19MkPlain(1)
+			res := t.Create(&p)
+			t.Commit()
+			return res
+		}},
+	} {
+		got, ev := run(pr.f)
+		r.CorrCompared++
+		r.Case("tie-finisher", "F25/"+pr.name, true)
+		r.H("tie_f25_events", strings.Join(ev, ","))
+		if (len(ev) > 0) != (len(ms[0].Txs) > 0) {
+			r.Violate(Violation{Kind: "correspondence", Suite: "tie-finisher", Input: pr.name, Observed: ev, Expected: fmt.Sprint("model txs ", ms[0].Txs)})
+		} else if len(ev) > 0 {
+			if listed(c19FExplicitTx) {
+				r.KnownFinding(c19FExplicitTx, fmt.Sprintf("probe: %s made driver calls %v", pr.name, ev))
+			} else {
+				r.Violate(Violation{Kind: "e2e", Suite: "tie-finisher", Input: pr.name, Observed: ev, Expected: "no driver call"})
+			}
+		} else if got != want || want == "" {
+			// silent: the former witness is judged like any other ToSQL run
+			r.Violate(Violation{Kind: "e2e", Suite: "tie-finisher", Input: pr.name, Observed: got, Expected: "the statement of the inner Create: " + want})
 		}
 	}
 	// plain create: exposes its statement, silent
